@@ -47,6 +47,34 @@ def reconstruct(repo, out_dir):
             m = re.search(r'//\s*(\S+)\s*->\s*(\S+)\s*$', line)
             if m:
                 links.append('Link\t%s\t%s' % (m.group(2), m.group(1)))
+    # Synthetic additions (clearly named) so that the source also contains what the shipped tables do not:
+    # identical twins (ties), multi-letter LETTERs, zones and policies that are removed or flagged for
+    # several reasons at once (the "several reasons inside one comment" case of the property), links to twins.
+    rules += [
+        'Rule\tVerifA\t2001\tmax\t-\tMar\tlastSun\t2:00\t1:00\tD',
+        'Rule\tVerifA\t2001\tmax\t-\tOct\tlastSun\t2:00\t0\tS',
+        'Rule\tVerifB\t2001\tmax\t-\tMar\tlastSun\t2:00\t1:00\tDD',
+        'Rule\tVerifB\t2001\tmax\t-\tOct\tlastSun\t2:00\t0\tSS',
+        'Rule\tVerifC\t2001\tmax\t-\tMar\t1\t0:00\t0:20\tD',
+        'Rule\tVerifC\t2001\tmax\t-\tMar\t20\t2:00u\t0\tS',
+        'Rule\tVerifC\t2003\tonly\t-\tJan\t1\t0:00\t1:00\tXYZ',
+        'Rule\tVerifC\t2005\tmax\t-\tSep\tSun>=8\t2:01\t0:07\tW',
+    ]
+    zones += [
+        'Zone\tVerif/Twin1\t1:00\tVerifA\tVT%sT',
+        'Zone\tVerif/Twin2\t1:00\tVerifA\tVT%sT',
+        'Zone\tVerif/Letters\t-3:00\tVerifB\tV%sL',
+        'Zone\tVerif/Multi\t1:07\tVerifA\tX%sX\t2005\tMar\t10\t2:01s',
+        '\t\t\t2:13\tVerifC\tY%sY\t2010\tJan\t1\t0:00',
+        '\t\t\t2:00\t-\tYY',
+        'Zone\tVerif/Trunc\t0:13\t-\tTA\t2005',
+        '\t\t\t1:07\t0:20\tTB\t2009',
+        '\t\t\t1:00\tVerifA\tT%sT',
+        'Zone\tVerif/Odd\t0:13\tVerifC\tO%sO\t2004\tFeb\t29\t23:59',
+        '\t\t\t0:00\t0:20\tOO',
+    ]
+    links += ['Link\tVerif/Twin1\tVerif/Alias1', 'Link\tVerif/Twin1\tVerif/Alias2', 'Link\tVerif/Multi\tVerif/AliasM',
+              'Link\tVerif/Nowhere\tVerif/Dangling']
     os.makedirs(out_dir, exist_ok=True)
     with open(os.path.join(out_dir, ZONE_FILES[0]), 'w') as f:
         f.write('# reconstructed from src/ace_time/zonedbx comments\n')
